@@ -1176,8 +1176,8 @@ def run(check):
                             'perm_docb doc (spell d fs vs), obj_eqb (compact_fields fs vs) e))')
     # the theorems are about unflatten with the natural sort and a per-branch type-info table: the
     # working tree must use both (read from the source by the flatkeys translator)
-    lib.correspond(check, 'source_flags', 'From SpyneV Require Import Base.Prelude C03.SourceTie.', 'unit',
-                   '(fun _ => source_flags_ok)',
+    lib.correspond(check, 'source_flags', 'From SpyneV Require Import Base.Prelude Gen.FlatKeys.', 'unit',
+                   '(fun _ => src_sort_natural && src_sti_per_branch)',
                    [('tt', 'simple_dict_to_object sorts with _natural_key and get_simple_type_info_with_prot '
                            'expands a class in every branch (Gen/FlatKeys.v: src_sort_natural, src_sti_per_branch)')],
                    show='(fun _ : unit => (Gen.FlatKeys.src_sort_natural, Gen.FlatKeys.src_sti_per_branch))')
